@@ -107,7 +107,7 @@ def run_shards(shards, jobs=8, timeout=900):
     os.makedirs(vlib.GEN, exist_ok=True)
     paths = []
     for k, cs in enumerate(shards):
-        p = os.path.join(vlib.GEN, "cases_%s_%d.v" % (PROP, k))
+        p = os.path.join(vlib.GEN, "cases_%s_p%d_%d.v" % (PROP, os.getpid(), k))
         open(p, "w").write(shard_text(cs))
         paths.append(p)
 
